@@ -2,10 +2,10 @@
   CRModel.Frame — the read-only operations of commonroad-io as state transformers `St → St × Res Out` over
   (observable state) + (hidden caches they touch).
 
-  Modelled code (commonroad-io, repaired tree):
-    prediction/prediction.py:118-136   Prediction.occupancy_at_time_step           → `Pred.occAt`
-    prediction/prediction.py:286-294   TrajectoryPrediction.occupancy_set (functools.cached_property) → `Pred.occSet`
-    prediction/prediction.py:388-404   TrajectoryPrediction._create_occupancy_set   → `createOccSet`  (`createOccSetOld` = before the repair)
+  Modelled code (commonroad-io, repaired tree; line numbers of that tree):
+    prediction/prediction.py:122-140   Prediction.occupancy_at_time_step           → `Pred.occAt`, `findOcc`
+    prediction/prediction.py:291-299   TrajectoryPrediction.occupancy_set (functools.cached_property) → `Pred.occSet`
+    prediction/prediction.py:390-410   TrajectoryPrediction._create_occupancy_set   → `createOccSet`  (`createOccSetOld` = before the repair)
     scenario/obstacle.py:419-435       StaticObstacle.occupancy_at_time / state_at_time
     scenario/obstacle.py:612-642       DynamicObstacle.occupancy_at_time / state_at_time
     scenario/obstacle.py:797-820       PhantomObstacle.occupancy_at_time / state_at_time
@@ -13,13 +13,14 @@
     scenario/trajectory.py:133-143     Trajectory.state_at_time_step
     scenario/scenario.py:1046-1071     Scenario.occupancies_at_time_step
     scenario/scenario.py:1183-1201     Scenario.obstacle_states_at_time_step
-    scenario/lanelet.py:1292-1315      LaneletNetwork.__getstate__/__setstate__/__deepcopy__ (index dropped and rebuilt)
-    scenario/lanelet.py:1565-1595      LaneletNetwork._create_strtree
-    scenario/lanelet.py:1971-1993      LaneletNetwork.find_lanelet_by_position
+    scenario/lanelet.py:1296-1319      LaneletNetwork.__getstate__/__setstate__/__deepcopy__ (index dropped and rebuilt)
+    scenario/lanelet.py:1569-1599      LaneletNetwork._create_strtree
+    scenario/lanelet.py:1975-1997      LaneletNetwork.find_lanelet_by_position
     scenario/traffic_light.py:165-178  TrafficLightCycle.cycle_init_timesteps (lazy `_cycle_init_timesteps`) / get_state_at_time_step
-    common/writer/file_writer_xml.py:1000-1009        goal lanelets of a planning problem (`in`, then index)   → `goalLanelets`
-    common/writer/file_writer_protobuf.py:824-833     the same after the repair; `goalLaneletsOld` = before (index only)
-    common/writer/file_writer_xml.py:944-967, file_writer_protobuf.py:632-652   states are written from `used_attributes`
+    common/writer/file_writer_xml.py:981-1011         goal lanelets of a planning problem (`in`, then index)   → `goalLanelets`
+    common/writer/file_writer_xml.py:845-897          lanelet references are written inside the goal state's `position` element
+    common/writer/file_writer_protobuf.py:814-836     the same lookup after the repair; `goalLaneletsOld` = before (index only)
+    common/writer/file_writer_xml.py:938-962, file_writer_protobuf.py:635-656   states are written from `used_attributes`
 
   Values are opaque integer tokens (the harness interns every attribute value, shape and point); geometry is a parameter:
   a lanelet carries the list of point tokens its polygon contains.  Core Lean only.
